@@ -264,13 +264,19 @@ func c19History(c *ctx, start typeSpec, ops []c19Op, how string) {
 				if (pi < 0 || pi >= len(ref)) != isNil {
 					key, detail = "at-out-of-range", fmt.Sprintf("step %d: At(%d) with %d elements", i, pi, len(ref))
 				}
+				if (pi < 0 || pi >= len(ref)) && r != nil {
+					// a nil pointer inside a non-nil interface is not nil for the caller
+					key, detail = "at-out-of-range", fmt.Sprintf("step %d: At(%d) with %d elements is a non-nil interface holding a nil pointer", i, pi, len(ref))
+				}
 			}
 			// the snapshot does not follow later Set calls on the resource that was added
 			if (o.kind == "add" || o.kind == "addown") && lastSrc != nil && key == "" {
 				stored := col.At(col.Len() - 1)
 				before := map[string]any{}
+				beforeText := map[string]string{}
 				for _, f := range want {
 					before[f] = stored.Get(f)
+					beforeText[f] = descValue(stored.Get(f)) // pointers are followed now: the same pointer may hold another value later
 				}
 				for _, f := range o.res.t.fields {
 					if f.rel {
@@ -285,8 +291,8 @@ func c19History(c *ctx, start typeSpec, ops []c19Op, how string) {
 				}
 				lastSrc.Set("id", "changed-id")
 				for _, f := range want {
-					if !sameValue(before[f], stored.Get(f)) {
-						key, detail = "snapshot-follows-source", fmt.Sprintf("step %d %s: %s", i, o, f)
+					if !sameValue(before[f], stored.Get(f)) || descValue(stored.Get(f)) != beforeText[f] {
+						key, detail = "snapshot-follows-source", fmt.Sprintf("step %d %s: %s was %s, now %s", i, o, f, beforeText[f], descValue(stored.Get(f)))
 					}
 				}
 				if stored.Get("id") != ref[len(ref)-1].id {
